@@ -641,3 +641,72 @@ def r_hasquorum(ctx):
                       'with %d other voters, %d of them connected, %d read-only and %d removed-but-still-connected nodes in the connected set and %s own address hasQuorum evaluates to %s, expected %s'
                       % (n, c, o, st, 'an' if s else 'no', v, want), instance='hasQuorum arithmetic')
     ctx.expect_min(1)
+
+
+@rule('R-heartbeat', 'a leader sends append_entries whenever its heartbeat deadline has passed, and every send pass re-arms the deadline '
+                     'one appendEntriesPeriod ahead; the configuration asserts election timeout > heartbeat period')
+def r_heartbeat(ctx):
+    P, R = ctx.P, ctx.R
+    t = R.tick
+    snd = sender_func(ctx)
+    ex = U.explorer(ctx, t)
+    cfg = ex.cfg
+    res = U.full_run(ctx, t)
+    calls = [c for c in P.calls_in(t) if snd in P.resolve_call(t, c).targets]
+    ctx.require(calls, 'the tick never calls the append_entries sender')
+    # deadline attribute: assigned clock + conf.appendEntriesPeriod in the sender
+    dl = None
+    for st in ast.walk(snd.node):
+        if isinstance(st, ast.Assign) and P.self_attr(st.targets[0], snd.self_name) and isinstance(st.value, ast.BinOp) and isinstance(st.value.op, ast.Add) \
+                and any(U.is_clock_call(x) for x in ast.walk(st.value)) and any(isinstance(x, ast.Attribute) and x.attr == 'appendEntriesPeriod' for x in ast.walk(st.value)):
+            dl = (P.self_attr(st.targets[0], snd.self_name), st)
+    inst = 'every send pass re-arms the heartbeat deadline'
+    ctx.tick()
+    if dl is None:
+        ctx.violation('%s:heartbeat-deadline-not-rearmed' % snd.qualname, snd.loc(), 'the sender does not set the next heartbeat time to now + appendEntriesPeriod', instance=inst)
+        ctx.expect_min(1)
+        return
+    scfg = U.explorer(ctx, snd).cfg
+    dn = U.node_containing(scfg, dl[1])
+    if scfg.exit.id in scfg.reachable_from(scfg.entry.id, avoid=[dn.id], follow_exc=False):
+        ctx.violation('%s:heartbeat-deadline-not-rearmed' % snd.qualname, snd.loc(dl[1]), 'a send pass can finish without re-arming the heartbeat deadline', instance=inst)
+    else:
+        ctx.ok(inst, snd.loc(dl[1]), 'self.%s = now + conf.appendEntriesPeriod on every path' % dl[0])
+    # the tick: under state == LEADER the sender call is guarded by `now > deadline` (or the need-send flag)
+    inst = 'leader tick sends when the heartbeat deadline passed'
+    ctx.tick()
+    okg = False
+    for c in calls:
+        n = U.node_containing(cfg, c)
+        for m in cfg.nodes:
+            if m.kind == 'cond' and isinstance(m.ast, ast.Compare) and len(m.ast.ops) == 1:
+                l, r, op = m.ast.left, m.ast.comparators[0], m.ast.ops[0]
+                if (U.is_clock_call(l) and P.self_attr(r, t.self_name) == dl[0] and isinstance(op, (ast.Gt, ast.GtE))) or \
+                        (U.is_clock_call(r) and P.self_attr(l, t.self_name) == dl[0] and isinstance(op, (ast.Lt, ast.LtE))):
+                    tt = [d for d, lab in m.succ if lab == ('cond', True)]
+                    if tt and n.id in cfg.reachable_from(tt[0], avoid=[m.id]):
+                        # and the cond itself is reached on every leader tick path
+                        lit_leader = all(any(l_[0] == 'eq' and {l_[1].key, l_[2].key} == {'self.' + R.raftState, '%s.LEADER' % R.state_class} for l_ in fs) for fs in res.facts_at(m.id))
+                        if lit_leader:
+                            okg = True
+    if okg:
+        ctx.ok(inst, t.loc(calls[0]), 'sender called on the true edge of `now > self.%s` inside a LEADER block' % dl[0])
+    else:
+        ctx.violation('%s:no-heartbeat-test' % t.qualname, t.loc(calls[0]), 'the leader tick does not call the sender on "now > heartbeat deadline": followers time out and start elections under a healthy leader', instance=inst)
+    # configuration sanity asserted
+    conf = P.cls('SyncObjConf')
+    v = conf.methods.get('validate')
+    inst = 'configuration asserts election timeout > heartbeat period and fallback timeout > heartbeat period'
+    ctx.tick()
+    asserts = [unparse(a.test) for a in ast.walk(v.node) if isinstance(a, ast.Assert)] if v else []
+
+    def has(lhs, rhs):
+        for a in asserts:
+            if lhs in a.split('>')[0] and len(a.split('>')) > 1 and rhs in a.split('>', 1)[1]:
+                return True
+        return False
+    if has('raftMinTimeout', 'appendEntriesPeriod') and has('raftMaxTimeout', 'raftMinTimeout') and has('leaderFallbackTimeout', 'appendEntriesPeriod'):
+        ctx.ok(inst, v.loc(), '')
+    else:
+        ctx.violation('SyncObjConf.validate:timing-relations-not-asserted', v.loc() if v else '', 'validate() no longer asserts raftMinTimeout > appendEntriesPeriod, raftMaxTimeout > raftMinTimeout, leaderFallbackTimeout > appendEntriesPeriod', instance=inst)
+    ctx.expect_min(3)
